@@ -493,6 +493,17 @@ class Api:
                     ps.append((name, dflt, ty))
             self.sig[n] = ps
 
+    def load_ctors(self, ctx):
+        """method -> (request class name, [(constructor parameter, method parameter)]) of its construction site"""
+        self.ctor = {}
+        for n, out in zip(self.client, ctx.lean(["ctor " + n for n in self.client])):
+            if out == "-" or out == "unknown-method":
+                continue
+            cls, *items = out.split(" ")
+            pairs = [tuple(x.split("=", 1)) for x in items]
+            if all(not b.startswith(("const:", "expr")) for _, b in pairs):
+                self.ctor[n] = (cls, pairs)
+
     def pos_limit(self, meth):
         """number of parameters that can be passed positionally: those in front of `config` in the live signature"""
         if meth not in self._lim:
@@ -506,6 +517,17 @@ class Api:
 
     def optional(self, meth):
         return [i for i, (_, d, _) in enumerate(self.sig[meth]) if d != "req"]
+
+
+def default_value(tokn):
+    """the value a default token of a `sig` line stands for"""
+    if tokn == "none":
+        return None
+    kind, _, v = tokn.partition(":")
+    return {"bool": lambda: v == "1", "int": lambda: int(v), "bytes": lambda: bytes.fromhex(v) if v != "-" else b""}[kind]()
+
+
+_API = None  # the Api of the current run (shrinking un-omits arguments with the model's defaults)
 
 
 def tok(v, ty):
@@ -645,6 +667,19 @@ class ArgGen:
         for _ in range(self.ctx.pick(12, 300)):
             out.append(([g(rng) if rng.random() < 0.8 else rng.choice(edges)[1] for _, g, edges in fields], "mixed"))
         tys = [ty for _, _, ty in api.sig[meth]]
+        # small integer domains exhaustively (every sub-function / mask / counter / method nibble), for each setting of the flags
+        small = {"i7": 128, "i7odd": 128, "i7even": 128, "i8": 256, "i4": 16}
+        bools = [i for i, ty in enumerate(tys) if ty == "bool"]
+        for i, ty in enumerate(tys):
+            if ty in small:
+                base = [g(rng) for _, g, _ in fields]
+                for flags in range(1 << len(bools)):
+                    for j, bi in enumerate(bools):
+                        base[bi] = bool(flags >> j & 1)
+                    for v in range(small[ty]):
+                        p = list(base)
+                        p[i] = v
+                        out.append((p, f"{fields[i][0]}=all"))
         if "alfid" in tys:
             trip = self.g.mem_triples()
             if self.ctx.quick and not self.ctx.widened:
@@ -749,7 +784,7 @@ class Findings:
         for pkey in sorted(per_key):
             for slot in per_key[pkey][: (3 if budget > 0 else 1)]:
                 entry = self.best[slot]
-                if evaluate is not None and budget > 0 and entry[2].get("direction") in ("object->bytes", "bytes->object", "client"):
+                if evaluate is not None and budget > 0 and entry[2].get("direction") in ("object->bytes", "bytes->object", "client", "ctor"):
                     budget -= 1
                     entry = shrink(entry, pkey, evaluate)
                 _, what, case, impl, model, site, spec = entry
@@ -767,6 +802,8 @@ def case_text(case):
     if d == "client":
         return case.get("spelling", "positional") + " " + " ".join(
             "_" if is_omit(a) else (a.hex() or "-") if isinstance(a, bytes) else str(a).replace(" ", "") for a in unj(case["args"]))
+    if d == "ctor":
+        return " ".join("_" if is_omit(a) else (a.hex() or "-") if isinstance(a, bytes) else str(a).replace(" ", "") for a in unj(case["args"]))
     if d == "transmit":
         return f"{case['data_len']}:{case['block_length']}:{case['max_block_length']}:{case.get('spelling', 'positional')}"
     if d == "object->bytes":
@@ -826,6 +863,20 @@ def shrink(entry, pkey, evaluate, rounds=120):
         else:
             field = "params" if d == "object->bytes" else "args"
             p = unj(case[field])
+            if d in ("client", "ctor") and _API is not None:
+                # first spell out left-out arguments (fewest omissions that still fail), then pass positionally
+                for i, a in enumerate(p):
+                    if is_omit(a):
+                        q = list(p)
+                        q[i] = default_value(_API.sig[case["method"]][i][1])
+                        c2 = dict(case)
+                        c2[field] = jparams(q)
+                        c2["_size"] = size_of(q)
+                        cands.append(c2)
+                if case.get("spelling") == "keyword":
+                    c2 = dict(case)
+                    c2["spelling"] = "positional"
+                    cands.append(c2)
             skip = 0
             if d == "object->bytes" and case["kind"] in ("dtcByMask", "dtcPlain", "routine", "iocbiConv"):
                 skip = 1
@@ -1011,11 +1062,43 @@ def eval_client(ctx, loop, api, calls, count=False):
         else:
             got = bytes.fromhex(val) if val not in ("-", "nothing") and "," not in val and "!" not in val else b""
             key = f"{cat}-bytes:{meth}:{first_diff(got, bytes.fromhex(want[1]) if want[1] != '-' else b'')}"
-        if omitted:
-            key += ":" + "+".join(omitted) + "-omitted"
         F.add(key, f"{shown[:200]} hands {val[:60]} to the transport; the request the call denotes encodes to {want[1] and want[1][:60]}"
               + (f" (left out: {', '.join(omitted)})" if omitted else ""),
               case, impl={"status": st, "value": val}, model=m[:300], site=f"{owner}.{meth}")
+    return fs
+
+
+def eval_ctor_defaults(ctx, impl, api, calls, count=False):
+    """the request classes themselves, constructed with keyword arguments and optional ones left out, against the `denote` of the same
+    method call (the constructor defaults are the documented defaults too).  calls: [(method, args, label)]"""
+    calls = [c for c in calls if c[0] in api.ctor]
+    m_out = ctx.lean([call_line(api, meth, args) for meth, args, _ in calls])
+    fs = []
+    for (meth, args, label), m in zip(calls, m_out):
+        F = Findings()
+        fs.append(F)
+        cname, pairs = api.ctor[meth]
+        by_name = {n: a for (n, _, _), a in zip(api.sig[meth], args)}
+        kw = {cp: by_name[mp] for cp, mp in pairs if not is_omit(by_name[mp])}
+        omitted = [cp for cp, mp in pairs if is_omit(by_name[mp])]
+        try:
+            pdu = getattr(impl.S, cname)(**kw).pdu
+            st, val = "ok", hx(bytes(pdu))
+        except Exception as e:  # noqa: BLE001
+            st, val = "err", type(e).__name__
+        if count:
+            ctx.ev()
+            ctx.kind("ctor-default:" + cname)
+            ctx.nontrivial(("ctor", cname, repr(args)))
+        want = ("err", None) if m == "err" else ("ok", m.split(" ", 2)[1])
+        if st == want[0] and (st == "err" or val == want[1]):
+            continue
+        what = "accepted-out-of-range" if want[0] == "err" else f"refused-valid:{val}" if st == "err" else \
+            "layout:" + first_diff(bytes.fromhex(val) if val != "-" else b"", bytes.fromhex(want[1]) if want[1] != "-" else b"")
+        case = {"direction": "ctor", "method": meth, "class": cname, "args": jparams(args), "varied": label, "_size": size_of(args)}
+        F.add(f"ctor-default:{cname}:{what}", f"{cname}({', '.join(f'{k}={v!r:.40}' for k, v in kw.items())}) - left out: {', '.join(omitted) or 'nothing'} - "
+              f"gives {val[:60]}; the request these arguments denote encodes to {want[1] and want[1][:60]}",
+              case, impl={"status": st, "value": val}, model=m[:300], site=f"{cname}.__init__")
     return fs
 
 
@@ -1228,7 +1311,9 @@ def run(ctx):
     # ---- client glue: every call is compared with the Lean `denote` of the call
     from gallia.services.uds.core.client import UDSClient
 
-    api = Api(ctx)
+    global _API
+    api = _API = Api(ctx)
+    api.load_ctors(ctx)
     public = sorted(n for n, f in inspect.getmembers(UDSClient, inspect.iscoroutinefunction) if not n.startswith("_"))
     unknown = [n for n in public if n not in api.client and n not in INFRA]
     missing = [n for n in api.client if n not in public]
@@ -1251,6 +1336,8 @@ def run(ctx):
                 for a, sp in spellings(api, meth, args, idx, ctx.rng, exhaustive=(idx == 0)):
                     calls.append((meth, a, sp, label, gid))
         merge(eval_client(ctx, loop, api, calls, count=True))
+        ctor_calls = [(meth, a, label) for meth, a, sp, label, _ in calls if sp == "positional" and any(is_omit(x) for x in a)]
+        merge(eval_ctor_defaults(ctx, impl, api, ctor_calls, count=True))
         tcs = transmit_cases(ctx)
         merge(eval_transmit(ctx, tcs, count=True))
         merge(eval_ecu_seq(ctx, count=True))
@@ -1268,7 +1355,8 @@ def run(ctx):
         ctx.exhaustive_parts.append(
             f"client glue: all {len(api.client)} public UDSClient service methods and {len(api.ecu)} single-request ECU helpers against the Lean "
             "`denote`: every boundary value of every parameter (one moved at a time) x arguments passed positionally / optional ones left "
-            "out (every subset for the base case) / passed by keyword; address/size/format sweep for the 6 memory-style methods")
+            "out (every subset for the base case) / passed by keyword; address/size/format sweep for the 6 memory-style methods; the "
+            "constructed request classes themselves with the same optional arguments left out")
         ctx.exhaustive_parts.append("ECU.transmit_data: block lengths -1..5, 9 and 0xFFE..0x1001, data sizes 0, 1, p-1, p, p+1, 2p-1, 2p, 2p+1 and "
                                     "254..257 / 513 blocks (counter wrap), max_block_length below / at / above the block length; ECU.leave_session")
 
@@ -1278,6 +1366,8 @@ def run(ctx):
                 return eval_objects(ctx, impl, [(c["kind"], unj(c["params"]), c.get("varied", "")) for c in cands])[0]
             if d == "bytes->object":
                 return eval_bytes(ctx, impl, [bytes.fromhex(c["pdu"]) if c["pdu"] != "-" else b"" for c in cands])[0]
+            if d == "ctor":
+                return eval_ctor_defaults(ctx, impl, api, [(c["method"], unj(c["args"]), c.get("varied", "")) for c in cands])
             return eval_client(ctx, loop, api, [(c["method"], unj(c["args"]), c.get("spelling", "positional"), c.get("varied", ""), i)
                                                 for i, c in enumerate(cands)])
 
@@ -1301,7 +1391,8 @@ def replay(ctx, case):
             print("impl  :", impl.dyn(b))
             print("oracle:", ctx.lean(["dec " + hx(b)])[0])
         elif d == "client":
-            api = Api(ctx)
+            global _API
+            api = _API = Api(ctx)
             args = unj(c["args"])
             sp = c.get("spelling", "positional")
             f = eval_client(ctx, loop, api, [(c["method"], args, sp, "replay", 0)])[0]
@@ -1309,6 +1400,12 @@ def replay(ctx, case):
             print("call  :", c["method"], pos, kw)
             print("impl  :", ecu_call(c["method"], pos, kw) if c["method"] in api.ecu else client_call(loop, c["method"], pos, kw))
             print("oracle:", call_line(api, c["method"], args)[:200], "->", ctx.lean([call_line(api, c["method"], args)])[0][:400])
+        elif d == "ctor":
+            api = _API = Api(ctx)
+            api.load_ctors(ctx)
+            f = eval_ctor_defaults(ctx, impl, api, [(c["method"], unj(c["args"]), "replay")])[0]
+            print("class :", c["class"], unj(c["args"]))
+            print("oracle:", ctx.lean([call_line(api, c["method"], unj(c["args"]))])[0][:400])
         elif d == "transmit":
             mbl = OMIT if c["max_block_length"] is None else c["max_block_length"]
             tc = (c["data_len"], c["block_length"], mbl, c.get("spelling", "positional"))
